@@ -22,10 +22,46 @@ package serviceblock
 //@   modifies heap
 //@   preserves Filter.*
 //@   ensures err == nil ==> resp != nil
+// The conversion of the index: all services or none - one service that cannot
+// be converted fails the whole refresh (and the installed services stay); an
+// index without services converts to no services.  Every converted service
+// gets a rule list compiled from its own rules under its own validated ID,
+// with a result cache of its own (C12: not one shared with, and later filled
+// by, the list it replaces).
+//@ import agdcache github.com/AdguardTeam/AdGuardDNS/internal/agdcache
+//@ import errcoll github.com/AdguardTeam/AdGuardDNS/internal/errcoll
+//@ fun validSvcID(s string) bool
+//@ func internal.NewBlockedServiceID
+//@   modifies nothing
+//@   ensures (err == nil) == validSvcID(s) && (err == nil ==> id == s)
+//@ func strings.Join
+//@   modifies nothing
+//@ interface agdcache.Manager method Add
+//@   modifies nothing
+
+//@ func (*indexRespService).toInternal
+//@   property C13 C12
+//@   requires svc != nil && ref(errColl) != 0 && logger != nil && ref(cacheManager) != 0
+//@   modifies nothing
+//@   atcall NewImmutable assert a-result-cache-of-its-own: fresh(ref(arg3)) || isEmptyCache(arg3)
+//@   atcall NewImmutable assert compiled-under-its-own-id: arg1 == "blocked_service" && arg2 == svc.ID && validSvcID(svc.ID)
+//@   ensures an-invalid-id-is-an-error: !validSvcID(svc.ID) ==> err != nil
+//@   ensures err == nil ==> rl != nil && fresh(rl) && svcID == svc.ID && validSvcID(svc.ID)
+//@   ensures err != nil ==> rl == nil
+
 //@ func (*indexResp).toInternal
+//@   property C13
+//@   requires r != nil && ref(errColl) != 0 && logger != nil && ref(cacheManager) != 0 && (forall i int :: 0 <= i && i < len(r.BlockedServices) ==> r.BlockedServices[i] != nil)
 //@   modifies heap, lastConverted
-//@   preserves Filter.*
+//@   preserves Filter.*, indexResp.*, indexRespService.*, allelems(*indexRespService), allelems(string)
+//@   ghostset lastConverted = services
 //@   ensures err == nil ==> services == lastConverted && (forall id internal.BlockedServiceID :: has(services, id) ==> services[id] != nil)
+//@   ensures all-services-or-none: err != nil ==> services == nil
+//@   ensures every-service-of-the-index-is-converted: err == nil ==> (forall i int :: 0 <= i && i < len(r.BlockedServices) ==> has(services, r.BlockedServices[i].ID))
+//@   ensures no-services-in-no-services-out: len(r.BlockedServices) == 0 ==> services == nil && err == nil
+//@   loop 1 invariant -1 <= #i && #i < len(r.BlockedServices) && services != nil && fresh(services) && len(errs) == len(r.BlockedServices) && fresh(errs)
+//@   loop 1 invariant forall k int :: 0 <= k && k <= #i ==> (errs[k] == nil ==> has(services, r.BlockedServices[k].ID))
+//@   loop 1 invariant forall id internal.BlockedServiceID :: has(services, id) ==> services[id] != nil
 //@ func (*rulelist.Immutable).RulesCount
 //@   modifies nothing
 
@@ -34,8 +70,10 @@ package serviceblock
 
 //@ func (*Filter).Refresh
 //@   property C13
-//@   requires f != nil && f.mu != nil && ref(f.metrics) != 0
+//@   requires f != nil && f.mu != nil && ref(f.metrics) != 0 && ref(f.errColl) != 0 && f.logger != nil && ref(cacheManager) != 0
 //@   modifies heap, lastConverted
+// (JSON decoding of the index yields no null entries - a `null` in the list would be a nil service)
+//@   atcall toInternal assume the-decoded-index-has-no-null-entries: forall i int :: 0 <= i && i < len(arg0.BlockedServices) ==> arg0.BlockedServices[i] != nil
 //@   ensures a-failed-refresh-keeps-the-installed-services: err != nil ==> f.services == old(f.services)
 //@   ensures a-successful-refresh-installs-the-converted-index: err == nil ==> f.services == lastConverted
 //@   loop 1 invariant true
